@@ -63,7 +63,7 @@ class Anchors:
     def need(self, *names):
         ok = True
         for n in names:
-            ok = self.chk.require_anchor(getattr(self, n) is not None, n) and ok
+            ok = self.chk.require_anchor(getattr(self, n) is not None, n, hard=True) and ok
         return ok
 
     def need_floors(self, variants=40, readers=38, writers=40):
@@ -76,6 +76,7 @@ class Anchors:
 
 def new_engine(chk, fx, **opts):
     e = Engine(fx, opts)
+    chk.engines.append(e)
     e.used_contracts = chk.used_contracts        # shared: which Reader/Writer contract entries this check's proof applied
     return e
 
